@@ -112,6 +112,7 @@ fn run_body(cfg: &RunCfg, ops: &[Op], base: &str) -> RunResult {
 	simdisk::with(|d| {
 		d.buggify = simdisk::Buggify { max_read: cfg.max_read, max_write: cfg.max_write, eintr_one_in: cfg.eintr_one_in };
 		d.monitor = cfg.sync_wal && cfg.sync_data && cfg.scenario != "ioerr" && cfg.scenario != "logfuzz";
+		d.keep_events = std::env::var("PIPESIM_DUMP").is_ok();
 	});
 	for c in PROBE_COUNTS.iter() {
 		c.store(0, Ordering::Relaxed);
@@ -135,6 +136,13 @@ fn run_body(cfg: &RunCfg, ops: &[Op], base: &str) -> RunResult {
 		}
 	}
 	let disk = simdisk::uninstall().expect("disk");
+	if let Ok(p) = std::env::var("PIPESIM_DUMP") {
+		let mut out = String::new();
+		for e in &disk.events {
+			out.push_str(&format!("{} {} {} {} {} {}\n", e.seq, e.kind.name(), e.file, e.a, e.b, e.res));
+		}
+		let _ = std::fs::write(p, out);
+	}
 	RunResult {
 		violations: std::mem::take(&mut ex.viol),
 		stats: std::mem::take(&mut ex.stats),
